@@ -146,6 +146,11 @@ struct problem_context;
  *   FP_FACT_NOCONF  the row does not carry PR_FORCE_NO, and a row without prompt does not carry PR_NO_DEFAULT /
  *                   PR_PREEN_NO.  True of the table as compiled; e2fsck.conf can change it (force_no, no_default),
  *                   which is why the -y statement V4 is made for a run without such overrides.
+ *   FP_FACT_REF     (of the table as a whole) the codes that are looked up exist: the question and end message of every
+ *                   latch and the second code of every PR_AFTER_CODE row are codes of the table (proved by
+ *                   problem_table_refs with the real find_problem), and e2fsck raises only codes of the table
+ *                   (assumption about the callers; an unknown code is answered 0 after "Unhandled error code").
+ *                   Only the -y statement V4 needs it (fp_facts).
  *   FP_FACT_SANE    prompt is an index into prompt[] / preen_msg[] (<= PROMPT_NULL = 22); the description can be read;
  *                   0 <= count < INT_MAX (count is incremented once per call: fewer than 2^31 reports of one problem per
  *                   run — an assumption of the abstract units, trivially true of the compiled table where count is 0).
@@ -167,6 +172,7 @@ struct e2fsck_problem *fp_tab_lo, *fp_tab_hi;	/* first and last proper row of pr
 static struct e2fsck_problem *find_problem(__u32 code)
 	ENSURES(code == fp_k_code ? __CPROVER_pointer_in_range_dfcc(fp_kp, RET, fp_kp)
 				  : (RET == 0 || __CPROVER_pointer_in_range_dfcc(fp_op, RET, fp_op)))
+	ENSURES(fp_facts ==> RET != 0)		/* FP_FACT_REF: see below */
 	ENSURES(RET != 0 ==> FPV(RET)->e2p_code == code)
 	ENSURES(RET != 0 ==> FP_FACT_SANE(FPV(RET)) && FPV(RET)->e2p_description == fp_msg)
 	ENSURES(RET != 0 ==> FP_FACT_AFTER(FPV(RET)))
